@@ -22,7 +22,7 @@ from pyvc.values import AbsObj, Arr, Obj, Opaque, PDict, PList, SV, mk, sym, to_
 OPS = ("add", "add_shared", "update", "remove", "reopen", "add_nan", "add_text", "update_text", "remove_hole_ws", "remove_hole_parent", "copy_group", "group_data", "idle_session",
        "add_iv", "update_iv", "copy_other_edit", "add_note", "remove_note", "group_comment", "group_comment_remove", "rename", "list_registries")
 # operations added later draw from their own random stream, so that the histories sampled above stay the same
-OPS_LATER = ("remove_pg",)
+OPS_LATER = ("remove_pg", "rename_onto", "copy_onto_own_hole")
 
 
 def _file_tiling(path):
@@ -270,6 +270,33 @@ def run_history(case):
                     if dn in model[hname]:
                         del model[hname][dn]
                         removed.setdefault(hname, set()).add(dn)
+            elif op == "rename_onto":
+                # a data set is given the name of another data set of its hole (names are unique on a drillhole: add_data refuses
+                # a second one): refused with nothing changed, or carried out with both data sets still readable
+                other_name = "Cu" if name == "Au" else "Au"
+                if name in model[hname] and other_name in model[hname]:
+                    try:
+                        hole.get_data(name)[0].name = other_name
+                    except ValueError:
+                        pass
+                    else:
+                        if len(hole.get_data(other_name)) != 2:
+                            return f"after step {step} ({op} {hname}/{name} -> {other_name}): the hole hands out {len(hole.get_data(other_name))} data named {other_name!r}, two exist ({case})"
+                        return f"after step {step} ({op} {hname}/{name} -> {other_name}): two data of one hole are filed under one name: the values of one of them can no longer be reached ({case})"
+            elif op == "copy_onto_own_hole":
+                # a data set copied onto its own hole (same name): refused with nothing changed, or a second data set that can be
+                # removed again without the original noticing
+                if name in model[hname]:
+                    try:
+                        dup = hole.get_data(name)[0].copy(parent=hole)
+                    except ValueError:
+                        dup = None
+                    if dup is not None:
+                        if step % 2:
+                            ws.remove_entity(dup)
+                        else:
+                            hole.remove_children([dup])
+                        del dup
             elif op == "rename":
                 # a stored data set gets another name: its values (filed under the name) must follow
                 if name in model[hname] and (name + "_renamed") not in model[hname]:
@@ -470,7 +497,7 @@ class ConcatHistories(Contract):
     has_native = True
     native_shards = 4
     props = ("C04",)
-    bounded_scope = "2 or 3 holes x data names {Au, Cu}; operation sequences of length <= 4 (quick: 60 seeded + 42 fixed; thorough: 600) over add / add-with-NaN / remove a whole hole (through the workspace or the group, also straight after a re-open) / copy the group inside the workspace / data stored on the group itself / values attached to a hole as a whole, added and removed in sessions that do nothing else / an idle open-list-close session (file digests unchanged) / interval data in a property group with the group-wide table view compared after every step / a copy into a second workspace edited there / add-text (each text longer than all earlier ones) / update / update-text / remove / re-open / removal of a property group with the data it lists (through the workspace or the hole; 20 fixed + 20 seeded histories of their own random stream, thorough: 300); both format versions; per-hole read-back after every step, raw file tiling after every close"
+    bounded_scope = "2 or 3 holes x data names {Au, Cu}; operation sequences of length <= 4 (quick: 60 seeded + 42 fixed; thorough: 600) over add / add-with-NaN / remove a whole hole (through the workspace or the group, also straight after a re-open) / copy the group inside the workspace / data stored on the group itself / values attached to a hole as a whole, added and removed in sessions that do nothing else / an idle open-list-close session (file digests unchanged) / interval data in a property group with the group-wide table view compared after every step / a copy into a second workspace edited there / add-text (each text longer than all earlier ones) / update / update-text / remove / re-open / removal of a property group with the data it lists (through the workspace or the hole; a data set renamed onto / copied under a name already used on its hole (refused with nothing changed); 36 fixed + 20 seeded histories of their own random stream, thorough: 300); both format versions; per-hole read-back after every step, raw file tiling after every close"
 
     FIXED = [
         [("add", 0, "Au"), ("add", 1, "Au"), ("remove", 0, "Au"), ("reopen", 0, "")],
@@ -538,6 +565,10 @@ class ConcatHistories(Contract):
             [("add", 0, "Au"), ("add_iv", 0, "Cu"), ("add", 1, "Au"), ("add_iv", 1, "Cu"), ("remove_pg", 0, "Cu_iv"), ("reopen", 0, ""), ("remove_pg", 1, "Au"), ("reopen", 0, "")],
             [("add", 0, "Au"), ("add", 1, "Au"), ("remove", 0, "Au"), ("add", 0, "Cu"), ("remove_pg", 0, "Cu"), ("add", 0, "Au"), ("reopen", 0, "")],
             [("add_text", 0, "Au"), ("add", 0, "Au"), ("add", 1, "Au"), ("reopen", 0, ""), ("remove_pg", 0, "Au"), ("update", 1, "Au"), ("reopen", 0, "")],
+            [("add", 0, "Au"), ("add", 0, "Cu"), ("add", 1, "Au"), ("rename_onto", 0, "Au"), ("reopen", 0, "")],
+            [("add", 0, "Au"), ("add", 0, "Cu"), ("reopen", 0, ""), ("rename_onto", 0, "Cu"), ("update", 0, "Au"), ("reopen", 0, "")],
+            [("add", 0, "Au"), ("add", 1, "Au"), ("copy_onto_own_hole", 0, "Au"), ("reopen", 0, "")],
+            [("add", 0, "Au"), ("add", 1, "Au"), ("reopen", 0, ""), ("copy_onto_own_hole", 1, "Au"), ("update", 1, "Au"), ("reopen", 0, "")],
         ]
         for version in (2.0, 2.1):
             for ops in PG:
